@@ -12,7 +12,9 @@ import (
 	"os"
 	"path/filepath"
 	"sort"
+	"strconv"
 	"strings"
+	"time"
 )
 
 // Prop is what every property runner implements.
@@ -34,6 +36,7 @@ type Violation struct {
 }
 
 type Run struct {
+	deadline time.Time
 	PropID string
 	Seed   int64
 	Tier   string
@@ -59,8 +62,12 @@ func NewRun(id string, seed int64, tier, outDir string, p Prop) (*Run, error) {
 	if err != nil {
 		return nil, err
 	}
-	return &Run{PropID: id, Seed: seed, Tier: tier, Rng: rand.New(rand.NewSource(seed)), P: p,
-		w: bufio.NewWriterSize(f, 1<<20), f: f, distinct: map[uint64]struct{}{}, hist: map[string]int{}}, nil
+	r := &Run{PropID: id, Seed: seed, Tier: tier, Rng: rand.New(rand.NewSource(seed)), P: p,
+		w: bufio.NewWriterSize(f, 1<<20), f: f, distinct: map[uint64]struct{}{}, hist: map[string]int{}}
+	if n, err := strconv.Atoi(os.Getenv("VERIF_MAXSEC")); err == nil && n > 0 {
+		r.deadline = time.Now().Add(time.Duration(n) * time.Second)
+	}
+	return r, nil
 }
 
 // Thorough reports whether the thorough tier was requested.
@@ -78,6 +85,11 @@ func (r *Run) N(quick, thorough int) int {
 // nontrivial: whether this case is non-trivial by the property's rule.
 // tags are counted in the histogram.
 func (r *Run) Do(op string, nontrivial bool, tags ...string) string {
+	if !r.deadline.IsZero() && time.Now().After(r.deadline) {
+		// VERIF_MAXSEC: a bounded search run; what was generated so far is what gets checked
+		r.hist["skipped-after-deadline"]++
+		return ""
+	}
 	out := r.P.Exec(op)
 	fmt.Fprintf(r.w, "%s => %s\n", op, out)
 	r.evals++
